@@ -652,7 +652,7 @@ class SFileEntry(Entry):
         if out.get("c_contiguous") is False and rd and rd[0] == "ok":
             o = rd[1]
             if (o["dtype"] == c["dtype"] and o["hdtype"] == c["dtype"] and o["size"] == len(c["rows"]) and len(o["rows"]) == len(c["rows"])
-                    and all(v for _, v in o["keys"]) and o["rows"] != c["rows"]):
+                    and all(v for k, v in o["keys"] if k not in RES_EXACT) and o["rows"] != c["rows"]):
                 return KF_NONCONTIG
         return None
 
@@ -845,6 +845,16 @@ class LayoutEntry(Entry):
             for vn in VIEWS:
                 fields = gen_dtype(r, maxrow=24)
                 cs.append({"dtype": fields, "rows": gen_rows(r, fields, 12), "view": vn, "family": "layout-mem:" + vn})
+        if round == 0 and not ctx.quick():
+            # small-scope sweep: every non-empty 1-d slice b[s:e:st] of a 12-row table with bounds/steps from a grid
+            fields = [["k", "<u2", []], ["s", "|S2", []]]
+            rows = gen_rows(r, fields, 12)
+            bounds = [None, 0, 1, 2, 5, 6, 11, 12, -1, -3]
+            for st in (1, 2, 3, 5, -1, -2, -3, -5):
+                for a in bounds:
+                    for b in bounds:
+                        if len(range(12)[slice(a, b, st)]) >= 1:
+                            cs.append({"dtype": fields, "rows": rows, "view": "slice", "slice": [a, b, st], "family": "layout-mem:slice-sweep"})
         return cs
 
     def impl(self, c):
@@ -852,7 +862,7 @@ class LayoutEntry(Entry):
         import esutil.recfile as recfile
         dt = np_dtype_of(c["dtype"])
         base = np.frombuffer(b"".join(bytes.fromhex(x) for x in c["rows"]), dtype=dt).copy()
-        data = VIEWS[c["view"]](base)
+        data = base[slice(*c["slice"])] if c["view"] == "slice" else VIEWS[c["view"]](base)
         start = data.__array_interface__["data"][0] - base.__array_interface__["data"][0]
         out = {"buf": base.tobytes().hex(), "start": int(start), "dims": [[int(n), int(st)] for n, st in zip(data.shape, data.strides)],
                "item": int(dt.itemsize), "np_rows": rows_of(data), "file": "", "read": None,
@@ -1136,28 +1146,38 @@ def coqchk_step(ctx):
 ENTRIES = [SFileFn(), SFileCls(), IoFn(), RecfileFn(), RecfileCls(), LayoutEntry(), Region(), Malformed()]
 
 TRUSTED = [
-    "Coq 8.16.1 kernel (coqc, vm_compute; no native_compute); every C01 theorem is closed under the global context (no axioms)",
-    "hand-written models C01/Framing.v + C01/Model.v of sfile.py (_make_header, _write_header, read_header, _extract_size_from_string, "
-    "_match_key), records.cpp (write_header_and_update_offset, read_sfile_header AFTER fixes/C01, Write/WriteAllAsBinary, "
-    "read_binary_slice, process_nrows), recfile/Util.py (_count_nrows, read, _read_binary_slice), io.py (*.rec wrappers); tied to the "
-    "working tree by the correspondence run on every check (file bytes, scanner result, eval text, read-back rows; bounded by the generators)",
+    "Coq 8.16.1 kernel (coqc, vm_compute; no native_compute); every C01 theorem is closed under the global context (no axioms); "
+    "coqchk on Properties.vo in the thorough tier",
+    "hand-written models C01/Framing.v + C01/Model.v + C01/Layout.v + C01/Entry.v of sfile.py (_make_header, _write_header, read_header, "
+    "_extract_size_from_string, _match_key, write/read wrappers), records.cpp (write_header_and_update_offset, read_sfile_header AFTER "
+    "fixes/C01/0001, Write/WriteAllAsBinary, read_binary_slice, process_nrows), recfile/Util.py (_count_nrows, read, _read_binary_slice, "
+    "Recfile.write AFTER fixes/C01/0002: ascontiguousarray), io.py (*.rec wrappers); tied to the working tree by the correspondence run on "
+    "every check (file bytes, scanner result, eval text, the dict _make_header built, read-back rows, and for the layout entry the array's "
+    "base buffer/offset/shape/strides; bounded by the generators)",
+    "regenerated from the source on every run (harness/props/c01_translate.py -> C01/Gen.v, fail closed; theorems C01_gen_*): SFILE_VERSION, "
+    "the SIZE formats of sfile.py and Records::update_row_count, the deleted-key list, the scanner literal/length/increment, "
+    "Recfile._get_slice_nrows, Recfile._count_nrows (binary branch), Records::process_slice, Records::process_nrows; the translators "
+    "(python ast via harness/translate/tint.py, a mini C statement/expression translator) are trusted to print what the source says",
     "assumed, monitored per case (contract H_pf of C01/Spec.v): pprint.pformat / eval / numpy.dtype(descr) — (a) text has no NUL/0xFF "
     "byte and no line is END, (b) eval(' '.join(lines)) == header, (c) numpy.dtype(evaluated _DTYPE) == data dtype; Python == on header values",
     "modelled, not verified: C stdio (fopen/fseek/ftell/fread/fwrite/fgetc as operations on a byte list; signed char makes 0xFF look like EOF), "
-    "UTF-8 encode/decode of the header text (identity on bytes), numpy memory layout of contiguous packed structured arrays "
-    "(row bytes = tobytes()), numpy.zeros + fread filling the output array; ASCII view of str.strip/upper/lower; "
-    "eval of the SIZE value modelled for blank-padded decimal digits only",
+    "UTF-8 encode/decode of the header text (identity on bytes), numpy's memory layout (element i of a view = itemsize bytes at "
+    "start + sum(index_k * stride_k) of the base buffer; ascontiguousarray = the elements in C order; tobytes()), numpy.zeros + fread "
+    "filling the output array; ASCII view of str.strip/upper/lower; eval of the SIZE value modelled for blank-padded decimal digits only; "
+    "user keys that the case-insensitive reader takes for _delim/_dtype in another spelling are counted among the reserved names (Spec.user_key_ok)",
     "python harness (harness/props/C01.py): generators, drivers, observation of pformat/eval by shadowing the names `pprint`/`eval` in "
     "esutil.sfile's module namespace (no change to the code under test), literal printers, coqc evaluating Exec.v verdict terms",
 ]
 
 
 def run(ctx, replay=None):
-    ctx.rule = ("corpus + adversarial families of the quantifier (END/SIZE/TREND, quotes, newlines, wrapping, reserved keys, every base "
-                "type x sub-array rank x byte order) + seeded random tables/headers per entry point; each case is written and read back "
-                "by the real esutil and evaluated in Coq (model file bytes = real file bytes, scanner, eval text, rows; verified checker "
-                "on the read-back).  non-trivial: >= 2 fields, >= 2 rows, >= 1 multi-byte field and a non-empty user header (header "
-                "entries), or a named adversarial case; malformed: an error or a size/extent mismatch.  distinct by canonical JSON.")
+    ctx.rule = ("corpus (witnesses of the two repaired defects) + adversarial families of the quantifier (END/SIZE/TREND, quotes, newlines, "
+                "wrapping, reserved and near-reserved keys, every base type x sub-array rank x byte order, every memory layout of the array: "
+                "strided/reversed/offset/transposed/n-d/0-d/recarray) + seeded random tables/headers per entry point; each case is written and "
+                "read back by the real esutil and evaluated in Coq (model file bytes = real file bytes, scanner, eval text, _make_header dict, "
+                "rows; verified checker on the read-back).  non-trivial: >= 2 fields, >= 2 rows, >= 1 multi-byte field and a non-empty user "
+                "header (header entries), or a named adversarial case; layout entry: a view that is not the whole contiguous base; malformed: "
+                "an error or a size/extent mismatch.  distinct by canonical JSON.")
     ctx.trusted = TRUSTED
     _TMP[0] = os.path.join(ctx.work, "files")
     if core.proof_step(ctx, "C01", core.ALLOW_DISCRETE) and replay is None:
